@@ -117,7 +117,11 @@ Definition c11_step (V : view) (ob : obs) : clauses :=
              but its balance is not in the trace; the debit of the distribution (clause 4) is still checked *)
           (if is_program_key rk then [] else
            chk (lamports (post_of V post rk) - lamports (vget V rk) =? d_relay d0) rk 3 (d_relay d0)) ++
-          chk (lamports (vget V dk) - lamports (post_of V post dk) =? d_relay d0) dk 4 (d_relay d0)
+          chk (lamports (vget V dk) - lamports (post_of V post dk) =? d_relay d0) dk 4 (d_relay d0) ++
+          (* in total never more than fee x contributors: one payout per counted leaf, never more leaves than declared *)
+          match dist_of (post_of V post dk) with
+          | Some (d1, _) => chk ((d_distributed_count d1 =? d_distributed_count d0 + 1) && (d_distributed_count d1 <=? d_total_contributors d1)) dk 5 (d_distributed_count d1)
+          | None => [] end
       | None => [] end
   | _ => [] end.
 Definition mon_C11 := mon_run (stateless c11_step) tt.
@@ -129,9 +133,14 @@ Definition c12_step (V : view) (ob : obs) : clauses :=
   flat_map (fun '(k, a) =>
     match dist_of a, dist_of (vget V k) with
     | Some (d, _), Some (d0, _) =>
-        if d_rewards_final d && negb (d_rewards_final d0) && hash_eqb (d_rewards_root d) null_hash then
+        (if d_rewards_final d && negb (d_rewards_final d0) && hash_eqb (d_rewards_root d) null_hash then
           chk (collectible d =? 0) k 1 (collectible d) ++ chk (d_prepaid_2z d =? 0) k 2 (d_prepaid_2z d)
-        else []
+        else []) ++
+        (* the consequence, in every state (the invariant C12_no_locked_reachable on the implementation's trace): a rewards-final
+           distribution whose root is null holds nothing to share, whichever instruction wrote the root *)
+        (if d_rewards_final d && hash_eqb (d_rewards_root d) null_hash then
+          chk ((collectible d =? 0) && (d_prepaid_2z d =? 0) && (d_swept_2z d =? 0)) k 3 (collectible d + d_prepaid_2z d + d_swept_2z d)
+        else [])
     | _, _ => [] end) post.
 Definition mon_C12 := mon_run (stateless c12_step) tt.
 
@@ -770,6 +779,10 @@ Definition c17_step (V : view) (ob : obs) : clauses :=
           | _, _ => [(rk, 8, 0)] end
       | PGrantAccess =>
           let se := nthk ms 1 in let rk := nthk ms 2 in let ben := nthk ms 3 in
+          (* the sentinel is the one the program's own configuration names *)
+          match ppconfig_of (vget V KPpConfig) with
+          | Some c => chk (key_eqb se (pc_sentinel c) && key_eqb (nthk ms 0) KPpConfig) se 20 0
+          | None => [(se, 20, 0)] end ++
           match request_of (vget V rk) with
           | Some r =>
               let bal := lamports (vget V rk) in let fee := ar_fee r in
@@ -783,6 +796,9 @@ Definition c17_step (V : view) (ob : obs) : clauses :=
           | None => [(rk, 16, 0)] end
       | PDenyAccess =>
           let se := nthk ms 1 in let rk := nthk ms 2 in
+          match ppconfig_of (vget V KPpConfig) with
+          | Some c => chk (key_eqb se (pc_sentinel c) && key_eqb (nthk ms 0) KPpConfig) se 20 0
+          | None => [(se, 20, 0)] end ++
           chk (lamports (post_of V post se) - lamports (vget V se) =? lamports (vget V rk)) se 17 (lamports (vget V rk)) ++
           chk (lamports (post_of V post rk) =? 0) rk 18 0
       | PConfigureProgram _ =>
@@ -800,6 +816,7 @@ Definition c18_step (V : view) (ob : obs) : clauses :=
       let rk := nthk ms 2 in
       match ppconfig_of (vget V (nthk ms 0)), request_of (post_of V post rk) with
       | Some c, Some r =>
+          chk (key_eqb (nthk ms 0) KPpConfig) (nthk ms 0) 13 0 ++
           chk (negb cpi) rk 1 0 ++
           chk (negb (pc_paused c) && negb (pc_request_paused c)) KPpConfig 2 0 ++
           chk (negb (pc_deposit c =? 0)) KPpConfig 3 0 ++
@@ -817,6 +834,15 @@ Definition c18_step (V : view) (ob : obs) : clauses :=
           match s with
           | PSAccessRequestDeposit dep fee => chk (negb (dep =? 0) && (fee <? dep)) KPpConfig 9 dep
           | PSBackupIdsLimit l => chk (negb (l =? 0)) KPpConfig 10 l
+          (* the two pause flags are independent: writing one leaves the other as it was *)
+          | PSFlag (PFIsPaused b) =>
+              match ppconfig_of (vget V (nthk ms 0)) with
+              | Some c0 => chk (Bool.eqb (pc_paused c1) b && Bool.eqb (pc_request_paused c1) (pc_request_paused c0)) KPpConfig 12 0
+              | None => [] end
+          | PSFlag (PFIsRequestAccessPaused b) =>
+              match ppconfig_of (vget V (nthk ms 0)) with
+              | Some c0 => chk (Bool.eqb (pc_request_paused c1) b && Bool.eqb (pc_paused c1) (pc_paused c0)) KPpConfig 12 0
+              | None => [] end
           | _ => [] end ++
           chk ((pc_deposit c1 =? 0) || (pc_fee c1 <? pc_deposit c1)) KPpConfig 11 (pc_fee c1)
       | None => [] end
